@@ -87,7 +87,12 @@ class Verifier(ExprMixin, CallMixin, BuiltinMixin, StmtMixin, Executor):
         """clause as a z3 Bool.  Heap typing facts about the locations the clause reads (declared class, non-null,
         closedness) are heap invariants: conjoined when the clause is assumed, hypotheses when it is a goal."""
         v = self.spec_eval(expr, st, env, pre)
-        facts = list(self.last_spec_facts or [])
+        facts = []
+        seen = set()
+        for f in (self.last_spec_facts or []):
+            if f.get_id() not in seen:
+                seen.add(f.get_id())
+                facts.append(f)
         c = self.truth(st, v)
         if c is None:
             raise OutOfReach('spec clause is not boolean: %s' % expr)
@@ -329,7 +334,10 @@ class Verifier(ExprMixin, CallMixin, BuiltinMixin, StmtMixin, Executor):
         for n in names:
             if n not in c.sig:
                 raise OutOfReach('contract %s gives no type for parameter %s' % (c.key, n))
-        for n in names + [x for x in (a.vararg, a.kwarg) if x is not None and x.arg in c.sig and False]:
+        for n in names:
+            if c.sig[n].startswith('='):
+                env[n] = mk(eval(c.sig[n][1:], {}))
+                continue
             ty = parse_type(c.sig[n])
             st, v = self.fresh_param(st, n, ty)
             env[n] = v
@@ -645,8 +653,13 @@ class Verifier(ExprMixin, CallMixin, BuiltinMixin, StmtMixin, Executor):
             st1.pc.append(z3.ForAll([a], z3.Implies(z3.And(a > 0, a < next0), cls1[a] == cls0[a])))
             st1.heap['cls'] = cls1
         touched = set(locs)
-        if c.allocates:
+        if c.allocates is True:
             touched |= set(k for k in st.heap if k not in ('next', 'cls') and not k.startswith('g.'))
+        elif c.allocates:
+            # the contract names the heap arrays in which its fresh objects live
+            for k in c.allocates:
+                self.H(st, k)
+                touched.add(k)
         for key in sorted(touched):
             old = self.H(st, key)
             allowed = locs.get(key, [])
@@ -658,7 +671,9 @@ class Verifier(ExprMixin, CallMixin, BuiltinMixin, StmtMixin, Executor):
                 st1.heap[key] = fresh(key, old.sort())
                 st1.pc.extend(self.closed_axioms(key, st1.heap[key], st1.heap.get('next', next0)))
                 continue
-            if not c.allocates:
+            fresh_objs_here = c.allocates is True or (c.allocates and key in c.allocates)
+            if not fresh_objs_here:
+                # no fresh object lives in this array: exactly the named locations change
                 new = old
                 for x in allowed:
                     new = z3.Store(new, x, fresh(key + '_v', old.sort().range()))
